@@ -134,7 +134,10 @@ def bases_cases(draw):
     splits = [(a, n // a) for a in range(1, n + 1) if n % a == 0]
     return {"system": system, "par": par, "points": pts,
             "comps_seed": draw(st.integers(0, 2**31)), "batch": draw(st.booleans()),
-            "mesh": list(draw(st.sampled_from(splits))) if draw(st.booleans()) else None}
+            "mesh": list(draw(st.sampled_from(splits))) if draw(st.booleans()) else None,
+            # coordinates that are whole numbers, handed over as integer arrays (after missed seed C19-7: a
+            # rotation matrix allocated with the dtype of the points truncated cos/sin to 0)
+            "int_points": draw(st.sampled_from([False, False, True]))}
 
 
 def make_system(system, par):
@@ -158,16 +161,28 @@ def check_bases(case):
     c = make_system(system, case["par"])
     pts = np.array(case["points"], dtype=float)
     dim = c.dim
+    int_points = bool(case.get("int_points")) and system != "cart"
+    if int_points:
+        pts = np.rint(pts)
+        lo_hi = {"polar": [(1, None)], "cyl": [(1, None)], "sph": [(1, None), (1, 3)], "bipolar": [(1, 6)],
+                 "bispherical": [(1, 3)]}[system]
+        for j, (lo, hi) in enumerate(lo_hi):
+            pts[:, j] = np.clip(pts[:, j], lo, hi)
+
+    def api(a):
+        """the points as the package receives them"""
+        return np.asarray(a).astype(np.int64) if int_points else a
+
     if case["batch"]:
-        R = np.asarray(c.basis_rotation(pts))
-        J = np.asarray(c.mapping_jacobian(pts))
+        R = np.asarray(c.basis_rotation(api(pts)))
+        J = np.asarray(c.mapping_jacobian(api(pts)))
         if R.ndim == 2:  # constant basis (Cartesian)
             R = np.repeat(R[:, :, None], len(pts), axis=2)
         if J.ndim == 2:
             J = np.repeat(J[:, :, None], len(pts), axis=2)
     else:
-        R = np.stack([np.asarray(c.basis_rotation(p)) for p in pts], axis=-1)
-        J = np.stack([np.asarray(c.mapping_jacobian(p)) for p in pts], axis=-1)
+        R = np.stack([np.asarray(c.basis_rotation(api(p))) for p in pts], axis=-1)
+        J = np.stack([np.asarray(c.mapping_jacobian(api(p))) for p in pts], axis=-1)
     if R.shape != (dim, dim, len(pts)) or J.shape != (dim, dim, len(pts)):
         raise Violation(f"{system}: basis_rotation shape {R.shape}, jacobian {J.shape}", key=f"bases:{system}:shape")
     comps = rng_array(case["comps_seed"], (dim, len(pts)), "f8", "uniform", 2.0)
@@ -229,20 +244,20 @@ def check_bases(case):
             want = comps[:, k]
         else:
             want = comps[:, k] @ cols
-        got = np.asarray(c.vec_to_cart(p, comps[:, k]))
+        got = np.asarray(c.vec_to_cart(api(p), comps[:, k]))
         if not np.allclose(got, want, atol=1e-12 * (1 + np.abs(comps[:, k]).sum()), rtol=0):
             raise Violation(f"{where}: vec_to_cart({comps[:, k].tolist()!r}) = {got.tolist()!r}, expected "
                             f"{np.asarray(want).tolist()!r}", key=f"bases:{system}:vec_to_cart")
     if case["batch"] and system != "cart":  # (Cartesian: constant basis, batched call is rejected)
-        got = np.asarray(c.vec_to_cart(pts, comps))
+        got = np.asarray(c.vec_to_cart(api(pts), comps))
         one = np.stack([np.asarray(c.vec_to_cart(p, comps[:, k])) for k, p in enumerate(pts)], axis=-1)
         if got.shape != one.shape or not np.allclose(got, one, atol=1e-12 * (1 + np.abs(comps).max()), rtol=0):
             raise Violation(f"{system}: batched vec_to_cart differs from point-wise calls",
                             key=f"bases:{system}:vec_to_cart-batch")
-    labels = [f"system:{system}", f"batch:{case['batch']}"]
+    labels = [f"system:{system}", f"batch:{case['batch']}"] + (["integer-typed points"] if int_points else [])
     if case.get("mesh") and system != "cart":
         n1, n2 = case["mesh"]
-        pm = pts.reshape(n1, n2, dim)
+        pm = api(pts.reshape(n1, n2, dim))
         want_shape = (dim, dim, n1, n2)
         for name, arr in (("basis_rotation", R), ("mapping_jacobian", J)):
             got = np.asarray(getattr(c, name)(pm))
